@@ -237,7 +237,7 @@ def r1_3(ctx, R, parts=("who", "clear", "behind")):
             if v != "1":
                 ok = v == "0" and (b.path == pop.path or b in helpers)
                 ctx.ob("R1.3", b, "writes-%s" % ("false" if v == "0" else "nonconst"), ok, b.loc(bb), "only POP / DRAIN's clear helper may clear the flag")
-    ctx.floor("R1.3", "flag-lockers", len(lockers), 3)
+    ctx.floor("R1.3", "flag-lockers", len(lockers), 2)
     # does POP itself clear on its successful-dequeue path?
     fl = ctx.flow(pop)
     vf = variant_facts(pop, fl)
